@@ -281,6 +281,21 @@ class OwnAttrModel(Model):
                 setattr(self, k_, v_)
 
 
+def ambient_warnings(sc, ctx):
+    """Ambient interpreter state: RuntimeWarning / UserWarning escalated to errors for the run (what `python -W error`, pytest's
+    filterwarnings = error or warnings.simplefilter('error') do). The scheduler has nothing to warn about in these histories."""
+    if not sc.get("warnings_as_errors"):
+        return
+    import warnings
+    cm = warnings.catch_warnings()
+    cm.__enter__()
+    ctx.cleanups.append(lambda: cm.__exit__(None, None, None))
+    warnings.simplefilter("error", RuntimeWarning)
+    warnings.simplefilter("error", UserWarning)
+    ctx.fault("ambient.warnings_as_errors")
+    ctx.probe("warnings_escalated_to_errors")
+
+
 def model_class(sc, ctx=None):
     kind = sc.get("model_kind")
     if kind and ctx is not None:
@@ -292,6 +307,7 @@ def gen_flavour(rng):
     """Scenario fields deciding the class of the recording systems (drawn last, so older fields keep their stream)."""
     out = _gen_flavour(rng)
     out["model_kind"] = rng.choice([None] * 8 + ["slotted", "own_attributes"])
+    out["warnings_as_errors"] = rng.random() < 0.08      # the run happens under `-W error::RuntimeWarning -W error::UserWarning`
     return out
 
 
